@@ -27,7 +27,7 @@ ASSUMPTIONS = [
     "(bag_network_refuted)",
     "crash-stop as the spec models it (netEnabled := FALSE; no restart)",
 ]
-RULE = ("cases = corpus/C08/*.json (targeted scenarios: stale leader, old-term entry, Raft Figure 8, deposed leader, split vote, commit_regress = new leader with a lower leaderCommit, even_split = 4 servers in two halves, stepdown_midfanout, divergent_vote = longer log with older last term, bag reorder; "
+RULE = ("cases = corpus/C08/*.json (targeted scenarios: stale leader, old-term entry, Raft Figure 8, deposed leader, split vote, commit_regress = new leader with a lower leaderCommit, even_split = 4 servers in two halves, stepdown_midfanout, divergent_vote = longer log with older last term, stale_matchindex = re-elected leader (5 servers), overwrite_same_key, bag reorder; "
         "each FIFO scenario also in wiring mode = over the resources bootstrap/server.go wires), then seeded adaptive random walks over the real generated archetypes: 1-5 servers x 5 archetypes, "
         "1-3 clients, crashers for a random minority, buffer 2-10, profiles steady/elections/lossy/crash/retry/service/handover (= leader change right after a commit that reached only part of the followers)/stepdown (= an isolated leader "
         "steps down between two iterations of its AppendEntries fan-out, the fan-out then continues), "
